@@ -118,7 +118,9 @@ Definition cancel_store (ignored : goerr -> bool) (st : av) (v : goerr) : av * b
    panics with, by code.  Dynamic types: 1 cancelErr (an int), 2 *errors.errorString, 3
    context.deadlineExceededError (an empty struct), 4 *fmt.wrapError, 5 *ptrErr, 6 structErr (a
    comparable struct, value receiver), 7 *panickyErr (Error() panics), 8 chanErr (a channel type).
-   1011 = a nil pointer of type ptrErr and 1015 = a nil chanErr are typed nils. *)
+   9 mapErr, 10 sliceErr, 11 funcErr (NON-comparable types: == on two values of such a type panics in Go; the
+   model's identity is on (type, payload) and nothing in mr / AtomicError compares errors with ==).
+   1011 = a nil pointer of type ptrErr, 1015 = a nil chanErr and 1020 = a nil mapErr are typed nils. *)
 Definition dyn_of_code (k : Z) : dyn :=
   if (k =? 1001) || (k =? 1002) || (k =? 1003) || (k =? 1007) || (k =? 1009) || (k =? 1017) then mkDyn 2 (PPtr k)
   else if k =? 1004 then mkDyn 3 (PVal 0)
@@ -129,6 +131,10 @@ Definition dyn_of_code (k : Z) : dyn :=
   else if k =? 1016 then mkDyn 6 (PVal 0)
   else if k =? 1013 then mkDyn 7 (PPtr k)
   else if k =? 1015 then mkDyn 8 PNil
+  else if k =? 1019 then mkDyn 9 (PPtr k)
+  else if k =? 1020 then mkDyn 9 PNil
+  else if k =? 1021 then mkDyn 10 (PPtr k)
+  else if k =? 1022 then mkDyn 11 (PPtr k)
   else mkDyn 1 (PVal k).
 
 (* what cancel(..) of a script action passes: None = cancel(nil) *)
@@ -144,6 +150,7 @@ Definition code_of_dyn (d : dyn) : Z :=
   | mkDyn 6 (PVal 0) => 1016
   | mkDyn 6 (PVal k) => k
   | mkDyn 8 PNil => 1015
+  | mkDyn 9 PNil => 1020
   | mkDyn _ (PPtr k) => k
   | _ => -1
   end.
@@ -162,8 +169,9 @@ Definition out_branch (st : av) (v : option Z) : outcome :=
 Inductive aop :=
 | ASet (v : goerr) (opanic : bool)                 (* Set(v); observed: it panicked *)
 | ALoad (o : goerr)                                (* Load(); observed: the value, by identity *)
-| AConc (vs : list goerr) (opanic : bool) (o : goerr).
-    (* one goroutine per value, all calling Set concurrently, all joined; then a Load that returned o *)
+| AConc (vs : list goerr) (mids : list goerr) (opanic : bool) (o : goerr).
+    (* one goroutine per value, all calling Set concurrently, and a reader whose Loads INTERLEAVE with the Sets
+       (mids: what it saw); all joined; then a Load that returned o *)
 
 Definition non_nil_of (vs : list goerr) : list goerr := filter (fun v => negb (is_nil_iface v)) vs.
 
@@ -175,15 +183,19 @@ Definition conc_allowed (st : av) (vs : list goerr) (o : goerr) : bool :=
   | nn => existsb (goerr_eqb o) nn
   end.
 
+(* a Load interleaved with the concurrent Sets sees the old content or one of the non-nil values *)
+Definition mid_allowed (st : av) (vs : list goerr) (o : goerr) : bool :=
+  goerr_eqb o st || existsb (goerr_eqb o) (non_nil_of vs).
+
 (* the model (today's Set) reproduces the observed history *)
 Fixpoint ae_agrees (st : av) (ops : list aop) : bool :=
   match ops with
   | [] => true
   | ASet v p :: tl => let '(st1, p1) := ae_set guard_today st v in Bool.eqb p p1 && ae_agrees st1 tl
   | ALoad o :: tl => goerr_eqb (ae_load st) o && ae_agrees st tl
-  | AConc vs p o :: tl =>
+  | AConc vs mids p o :: tl =>
     (* values of several concrete types: which Store panics depends on the order - not compared *)
-    if consistent st vs then negb p && conc_allowed st vs o && ae_agrees o tl
+    if consistent st vs then negb p && forallb (mid_allowed st vs) mids && conc_allowed st vs o && ae_agrees o tl
     else ae_agrees o tl
   end.
 
@@ -208,6 +220,11 @@ Fixpoint dyns (vs : list goerr) : list dyn :=
   | None :: tl => dyns tl
   end.
 
+(* a Load interleaved with concurrent Sets: a legitimate Load of the content before them, or one of
+   the values being Set *)
+Definition mid_ok (l : list dyn) (vs : list goerr) (o : goerr) : bool :=
+  load_ok l o || existsb (fun d => goerr_eqb o (Some d)) (dyns vs).
+
 Fixpoint ae_prop (cur : av) (l : list dyn) (ops : list aop) : bool :=
   match ops with
   | [] => true
@@ -216,7 +233,8 @@ Fixpoint ae_prop (cur : av) (l : list dyn) (ops : list aop) : bool :=
     if same_type cur (Some d) then negb p && ae_prop (Some d) (d :: l) tl
     else if p then ae_prop cur l tl else ae_prop (Some d) (d :: l) tl
   | ALoad o :: tl => load_ok l o && ae_prop cur l tl
-  | AConc vs p o :: tl =>
-    if consistent cur vs then negb p && load_ok (dyns vs ++ l) o && ae_prop o (dyns vs ++ l) tl
+  | AConc vs mids p o :: tl =>
+    if consistent cur vs
+    then negb p && forallb (mid_ok l vs) mids && load_ok (dyns vs ++ l) o && ae_prop o (dyns vs ++ l) tl
     else ae_prop o (match o with Some d => [d] | None => [] end) tl
   end.
